@@ -1072,14 +1072,18 @@ pub fn json_line(rng: &mut Rng, td: &TableDefinition) -> (String, String) {
     root.render(rng, &mut s);
     if s.contains("1e400") { class = "json-1e400".to_owned(); }
     if rng.chance(1, 25) { s = mutate(rng, &s); class = "json-mutated".to_owned(); }
-    (s.replace('\n', " ").replace('\r', " "), class)
+    let mut s = s.replace('\n', " ").replace('\r', " ");
+    // JSON allows white space around the document (and serde_json accepts it): blanks and tabs before / after
+    if rng.chance(1, 6) { s = format!("{}{}", rng.pick(&[" ", "\t", "   ", " \t "]), s); class.push_str("-lead-ws"); }
+    if rng.chance(1, 10) { let w: &str = *rng.pick(&[" ", "\t", "  "]); s.push_str(w); class.push_str("-trail-ws"); }
+    (s, class)
 }
 
 // ---------------------------------------------------------------------------------------------
 // runs
 // ---------------------------------------------------------------------------------------------
 
-fn tpl_index(re: &str) -> Option<usize> { TEMPLATES.iter().position(|t| t.re == re) }
+pub fn tpl_index(re: &str) -> Option<usize> { TEMPLATES.iter().position(|t| t.re == re) }
 
 /// generated (definition, line) pairs; `json_share` in 0..=10
 pub fn random_cases(run: &mut Run, rng: &mut Rng, ndefs: usize, lines_per_def: usize, json_share: u64) {
